@@ -197,6 +197,19 @@ def main(gen_lean, gen_json):
     node_classes = sorted(c.__name__ for c in uni if issubclass(c, ASTNode))
     uncovered = sorted(set(node_classes) - set(counts))
     plan, hash_ok = probe_eq()
+    from mindsdb_sql.parser.utils import to_single_line
+    sl_probe = [to_single_line(x) for x in (" a  `b  c`\n d ", "'x  y'", '"p\tq"  r')]
+    sl_variant = {('a `b c` d', "'x y'", '"p q" r'): 'pinned', ('a `b  c` d', "'x  y'", '"p\tq" r'): 'fixed'}.get(tuple(sl_probe), 'unknown')
+    from tools.harness import heap as H
+    orders = set()
+    for t in trees:
+        try:
+            for x in H.walk(t):
+                if type(x).__name__ == 'Identifier':
+                    orders.add(tuple(vars(x)))
+        except H.Opaque:
+            pass
+    orders = sorted(orders)
     order = ['atom', 'fresh', 'shared', 'dropped', 'changed', 'added']
     out = ['-- GENERATED by tools/extract/x_copy.py by deep-copying exemplar instances of every class in parser output. Do not edit.',
            'import MindsVerif.Model.CopyRow', 'namespace MindsVerif.Gen.CopyRows', 'open MindsVerif.Heap MindsVerif.CopyRow MindsVerif.PyEq',
@@ -210,13 +223,15 @@ def main(gen_lean, gen_json):
     out += ['def identHook : Hook := .%s' % hook,
             'def customCopy : List String := %s' % lstr(custom),
             'def eqDefs : List (String × List String) := %s' % T.lean_list('(%s, %s)' % (json.dumps(c), lstr(m)) for c, m in eqdefs),
+            'def identKeyOrders : List (List String) := %s' % T.lean_list(lstr(o) for o in orders),
+            'def singleLineVariant : String := %s' % json.dumps(sl_variant),
             'def planEqOnEqual : R := .%s' % plan,
             'def resultHashOk : Bool := %s' % ('true' if hash_ok else 'false'),
             '/-- node classes no exemplar was found for (not produced by the parsers on the corpus) -/',
             'def uncovered : List String := %s' % lstr(uncovered),
             'end MindsVerif.Gen.CopyRows']
     T.write_if_changed(os.path.join(gen_lean, 'CopyRows.lean'), '\n'.join(out) + '\n')
-    side = dict(hook=hook, custom=custom, eqdefs=eqdefs, plan=plan, hash_ok=hash_ok, uncovered=uncovered,
+    side = dict(sl_variant=sl_variant, hook=hook, custom=custom, eqdefs=eqdefs, plan=plan, hash_ok=hash_ok, uncovered=uncovered,
                 classes=len(counts), rows=len(rows))
     T.write_if_changed(os.path.join(gen_json, 'copyrows.json'), json.dumps(side, sort_keys=True))
     return {'copyrows': dict(classes=len(counts), rows=len(rows), hook=hook, uncovered=len(uncovered))}
